@@ -7,27 +7,32 @@ rm -rf $S; mkdir -p $S; rsync -a --exclude _build --exclude .git /repo/ $S/
 cd /verif
 H=$(python3 -c "import hashlib; print(hashlib.sha1(b'$S').hexdigest()[:8])")
 run() { VERIF_COV=1 VERIF_REPO=$S timeout 3000 ./check $1 --tier quick > /tmp/cov_$1.log 2>&1; echo "$1 exit=$?"; }
+if [ -n "${COV_CHECKS:-}" ]; then for c in $COV_CHECKS; do run $c; done; else
 for grp in "C01 C02 C03 C04" "C05 C06 C07 C08" "C09 C10 C11 C12" "C13 C14 C15 C16" "C17 C18 C19 C20"; do
   for c in $grp; do run $c & done; wait
-done
+done; fi
 OBJ=/verif/.build/cgns_$H/src/CMakeFiles/cgns_static.dir
 out=/verif/notes/coverage_functions.txt
 : > $out
 for f in cgnslib.c cgns_internals.c cgns_io.c cgns_error.c cg_hashmap.c adf/ADF_interface.c adf/ADF_internals.c adfh/ADFH.c; do
-  o=$(find /verif/.build/cgns_$H -name "$(basename $f).gcno" | head -1)
+  o=$(find /verif/.build/cgns_$H -name "$(basename $f).gcda" | head -1)
   [ -z "$o" ] && { echo "## $f: no coverage notes found" >> $out; continue; }
-  ( cd $(dirname $o) && gcov -f -o . $(basename $f) 2>/dev/null ) | python3 -c "
+  ( cd $(dirname $o) && gcov -f $(basename $o) 2>/dev/null ) | python3 -c "
 import sys,re
-fn=None; tot=0; zero=[]
+fn=None; tot=0; zero=[]; filecov=''
 for l in sys.stdin:
     m=re.match(r\"Function '(.*)'\", l)
     if m: fn=m.group(1); continue
+    if l.startswith('File '): fn='#file'; continue
     m=re.match(r'Lines executed:([0-9.]+)% of (\d+)', l)
+    if m and fn=='#file':
+        if not filecov: filecov='%s%% of %s lines' % (m.group(1), m.group(2))
+        fn=None; continue
     if m and fn:
         tot+=1
         if float(m.group(1))==0.0: zero.append((fn,int(m.group(2))))
         fn=None
-print('## $f: %d functions, %d never executed by any quick check' % (tot, len(zero)))
+print('## $f: %s executed; %d functions, %d never executed by any quick check' % (filecov, tot, len(zero)))
 for n,k in sorted(zero): print('   %s (%d lines)' % (n,k))
 " >> $out
 done
@@ -39,5 +44,6 @@ for c in ['C%02d'%i for i in range(1,21)]:
         try: m.pregen()
         except Exception as e: print(c,'pregen failed',e)
 " > /dev/null 2>&1
+[ -n "${COV_KEEP:-}" ] && { echo "kept /verif/.build/cgns_$H"; exit 0; }
 rm -rf $S /verif/.build/cgns_$H /verif/.build/h_$H /verif/.build/cgns_f_$H /verif/.work/out_$H
 echo COVERAGE-DONE; head -3 $out
